@@ -43,16 +43,19 @@ def run_proc(cmd, lines, timeout, env_extra=None, limit_cpu=None, limit_mem=None
         return -999, out, "TIMEOUT"
 
 
-def run_impl(cfg, kind, lines, guard=False, timeout=120, per_case_cpu=20):
+def run_impl(cfg, kind, lines, guard=False, timeout=120, per_case_cpu=20, extra_args=(), extra_env=None):
     """returns list of observation strings, one per input line; a crashed/hung case yields
     'CRASH <rc> <first line of the report>' and the batch resumes after it"""
     out = []
-    cmd = [harness(cfg, kind)] + (["--guard"] if guard else [])
+    cmd = [harness(cfg, kind)] + (["--guard"] if guard else []) + list(extra_args)
     if kind == "fail":
         env_fail = dict(SAN_ENV)
         env_fail["ASAN_OPTIONS"] = SAN_ENV["ASAN_OPTIONS"] + ":detect_stack_use_after_return=1"
     else:
         env_fail = SAN_ENV
+    if extra_env:
+        env_fail = dict(env_fail)
+        env_fail.update(extra_env)
     i = 0
     n = len(lines)
     while i < n:
